@@ -134,3 +134,21 @@ Fixpoint targets_fresh_from (g : gen_in) (l1 rest : list apk) : bool :=
 Definition targets_fresh_b (g : gen_in) : bool := targets_fresh_from g [] (g_apks g).
 Definition at_most_two_targets_b (g : gen_in) : bool :=
   forallb (fun a => match located g a with Some e => Nat.leb (List.length (targets (a_name a) e)) 2 | None => true end) (g_apks g).
+
+(* ---- identifiers that Generate does not have to number (fix 7c2586e) ------------------------ *)
+(* no package the document can hold when an apk is reached (Generate's own elements so far, the
+   packages of the embedded documents of the apks before it) carries the id Generate mints for
+   that apk under another name or version: the numbering loop never runs *)
+Definition clash_free_for (g : gen_in) (l1 : list apk) (a : apk) : Prop :=
+  forall q, In q (earlier_pkgs g l1 a) -> p_id q = p_id (apk_package (nonce_of g) a) ->
+    p_name q = a_name a /\ p_version q = a_version a.
+Definition clash_free_for_b (g : gen_in) (l1 : list apk) (a : apk) : bool :=
+  negb (taken (earlier_pkgs g l1 a) (a_name a) (a_version a) (p_id (apk_package (nonce_of g) a))).
+Definition NoIdClash (g : gen_in) : Prop :=
+  forall l1 a l2, g_apks g = l1 ++ a :: l2 -> clash_free_for g l1 a.
+Fixpoint no_id_clash_from (g : gen_in) (l1 rest : list apk) : bool :=
+  match rest with
+  | [] => true
+  | a :: t => clash_free_for_b g l1 a && no_id_clash_from g (l1 ++ [a]) t
+  end.
+Definition no_id_clash_b (g : gen_in) : bool := no_id_clash_from g [] (g_apks g).
